@@ -2449,6 +2449,19 @@ func lor(n *node) {
 	}
 }
 
+// getBinVar makes the frame location of node n designate a variable of a binary package.
+func getBinVar(n *node) {
+	i := n.findex
+	l := n.level
+	v := n.val.(reflect.Value)
+	next := getExec(n.tnext)
+
+	n.exec = func(f *frame) bltn {
+		getFrame(f, l).data[i] = v
+		return next
+	}
+}
+
 func nop(n *node) {
 	next := getExec(n.tnext)
 
